@@ -796,3 +796,44 @@ def vectorized_edge_template_with_unequal_value_keys(case):
             ks = set(e["ev"]) | {u["key"] for u in case.get("updates", []) if u["e"] == i and u["key"] != "weight"}
             keys.append(frozenset(ks))
     return len(set(keys)) > 1
+
+
+def _templated(case):
+    return [e for e in case.get("spec", {}).get("edges", []) if e.get("et")]
+
+
+@predicate("F-04e")
+def templated_and_plain_edge_between_one_pair(case):
+    """vectorize=True: an edge through an EdgeTemplate and a plain edge between the same two variables"""
+    if not case.get("cfg", {}).get("vectorize"):
+        return False
+    t = {(e.get("scope") or "", e["s"], e["t"]) for e in _templated(case)}
+    return any((e.get("scope") or "", e["s"], e["t"]) in t for e in case["spec"]["edges"] if not e.get("et"))
+
+
+@predicate("F-04f")
+def fan_in_through_edge_template(case):
+    """vectorize=True: two or more edges through one EdgeTemplate end in the same target variable of one node"""
+    if not case.get("cfg", {}).get("vectorize"):
+        return False
+    seen = {}
+    for e in _templated(case):
+        k = (e["et"], e.get("scope") or "", e["t"])
+        seen[k] = seen.get(k, 0) + 1
+    return any(v > 1 for v in seen.values())
+
+
+@predicate("F-04g")
+def edge_template_groups_of_single_edges(case):
+    """vectorize=True: one EdgeTemplate used by two or more edge groups (different source/target variable pairs) of which
+    one consists of a single edge"""
+    if not case.get("cfg", {}).get("vectorize"):
+        return False
+    groups = {}
+    for e in _templated(case):
+        k = (e["et"], e["s"].rsplit("/", 2)[1:], e["t"].rsplit("/", 2)[1:])
+        groups.setdefault((e["et"], str(k)), []).append(e)
+    by_t = {}
+    for (et, k), v in groups.items():
+        by_t.setdefault(et, []).append(len(v))
+    return any(len(v) >= 2 and min(v) == 1 for v in by_t.values())
